@@ -14,7 +14,20 @@ for i in ids:
         na.append({"property_id": i, "reason": NA_REASONS.get(i, "no solver query built for this property yet (see DESIGN.md section 4 for the planned encoding)")})
         continue
     mod = vp.load_prop(i)
-    m = getattr(mod, "MANIFEST", {})
+    m = dict(getattr(mod, "MANIFEST", {}))
+    qq = mod.queries("quick")
+    qt = mod.queries("thorough")
+    title = open(os.path.join(V, "props", i + ".py")).readline().lstrip("# ").strip()
+    outs = sorted({x.outside for x in qq if x.outside and x.outside != "-"})
+    m.setdefault("text", "Bounded model checking (CBMC 6.11: symbolic execution of the real /repo units named in the evidence file + SAT): "
+                 "for every input / pre-state inside the stated bounds every oracle assertion, bounds/pointer check and unwinding assertion is UNSAT, "
+                 "and each harness end is shown reachable by a witness twin whose trace is replayed natively. %d queries in the quick tier (%s), %d in the thorough tier. "
+                 "This is the right level here because the property quantifies over all inputs/pre-states of small pure-C kernels, where one solver query covers the "
+                 "rare boundary combinations the example-based suite never constructs; nothing is claimed outside the bounds."
+                 % (len(qq), ", ".join(sorted({x.harness for x in qq})), len(qt)))
+    m.setdefault("note", "Trusted: CBMC 6.11 (symex, memory and float models, MiniSat/CaDiCaL), goto-cc, the harness oracle/reference models and the stubs listed in the evidence file. "
+                 "Assumptions: " + "; ".join(getattr(mod, "ASSUMPTIONS", []) + ["allocation never fails", "C locale character classes"]) +
+                 ". Outside the claim: " + " / ".join(outs)[:900])
     checks.append({
         "property_id": i,
         "quick_cmd": "./check %s --tier quick" % i,
